@@ -244,8 +244,23 @@ impl Expr {
 
                 let rhs = rhs.for_type(flags)?;
 
-                lhs.get_output_type(&rhs, op, flags)
-                    .with_context(|| format!("invalid operation: {} {} {}", lhs, op.symbol(), rhs))
+                let output = lhs
+                    .get_output_type(&rhs, op, flags)
+                    .with_context(|| format!("invalid operation: {} {} {}", lhs, op.symbol(), rhs))?;
+
+                // `x op= y` stores the result back into `x`, so it must still fit the type of `x`.
+                if op.is_op_assign() && !lhs.eq_complex(&output, flags) {
+                    bail!(
+                        "invalid operation: {} {} {} yields `{}`, which cannot be stored in `{}`",
+                        lhs,
+                        op.symbol(),
+                        rhs,
+                        output,
+                        lhs
+                    )
+                }
+
+                Ok(output)
             }
             Expr::UnaryMinus(val) | Expr::UnaryNot(val) => val.for_type(flags),
             Expr::Callable(CallableContents::Standard { function, .. }) => {
